@@ -250,9 +250,13 @@ def bodies_theorems(prefixes=None):
     import os
     p = os.path.join(core.VERIF, "tools", "bodies_theorems.txt")
     names = [l.strip() for l in open(p)] if os.path.exists(p) else []
+    # always audited: the summary, the two facts about the real dispatcher, and the instantiation theorem that replaces
+    # trust in Model/EvalG.lean's copy of the evaluator (the stream `runG` every caller of this library uses)
+    fixed = ["KaVerif.BODIES_table", "KaVerif.BODIES_numdisp_real", "KaVerif.BODIES_numsem_real", "KaVerif.BODIES_evalG_instance"]
+    names = [n for n in names if n not in fixed]
     if prefixes is not None:
         names = [n for n in names if any(x in n for x in prefixes)]
-    return ["KaVerif.BODIES_table", "KaVerif.BODIES_numdisp_real", "KaVerif.BODIES_numsem_real"] + names
+    return fixed + names
 
 
 def bodies_coverage(ctx):
@@ -439,6 +443,90 @@ DIM_UNITS = {"len": LEN_UNITS, "time": TIME_UNITS, "mass": MASS_UNITS, "temp": T
 # precedence levels of the Ka grammar (Model/Render.lean): an operand written at a position that needs
 # level L stays bare when its own level is >= L
 L_TO, L_CMP, L_SUM, L_PROD, L_POW, L_BRACK, L_RANGE, L_QTY, L_SIGN, L_FACT, L_ATOM = range(11)
+
+
+def py_simplify(x):
+    """`simplify_number` on a Python number (C01: an integral float / a Fraction with denominator 1 is delivered as an int)"""
+    from fractions import Fraction
+    if isinstance(x, float) and x == x and x not in (float("inf"), float("-inf")) and x.is_integer():
+        return int(x)
+    if isinstance(x, Fraction) and x.denominator == 1:
+        return int(x)
+    return x
+
+
+def ka_literal(text):
+    """the Python number Ka delivers for a numeric literal / a quotient of two integer literals (tokens.py read_number: a
+    mantissa with a point is a float, read by `float()` as a whole; an integer mantissa with an exponent stays exact —
+    `1e16` is the int 10**16, `1e-3` the Fraction 1/1000; then simplify_number)"""
+    from fractions import Fraction
+    if "/" in text:
+        a, b = text.split("/")
+        return py_simplify(Fraction(int(a), int(b)))
+    m = re.match(r"^(\d+)(\.\d*)?(?:e([+-]?\d+))?$", text)
+    if m.group(2) is not None:
+        return py_simplify(float(text))
+    v = int(m.group(1))
+    if m.group(3) is not None:
+        e = int(m.group(3))
+        v = v * 10 ** e if e >= 0 else Fraction(v, 10 ** -e)
+    return py_simplify(v)
+
+
+def float_range_case(rng):
+    """`range(lo, hi, step)` where floating-point rounding decides the number of rounds or stops progress altogether
+    (fix efcc27a): bounds next to 2^51 … 2^54 (unit in the last place 0.5 … 4) or written 1e15 … 2e16, steps that are
+    rounded up, rounded down or absorbed (`1e16 + 0.5 == 1e16`: FunctionArgError).  The operands are built BY CONSTRUCTION:
+    returns (lo_text, hi_text, step_text, lo, hi, step) with the Python values Ka computes for the three texts."""
+    from fractions import Fraction
+    form = rng.choice(["lit", "lit", "lit", "int", "e", "e"])
+    w = rng.choice([1, 2, 2, 4, 4, 6, 10, 20])
+    if form == "e":
+        lo_t = rng.choice(["1e15", "4e15", "9e15", "1e16", "1.0e16", "2e16", "1.5e16", "9.0e15", "4.5e15"])
+        lo = ka_literal(lo_t)
+    else:
+        k = rng.choice([51, 51, 52, 52, 53, 53, 54])
+        off = rng.choice([0, 0, 1, 2, 3, -1, -2, 0.5, -0.5, 1.5, -1.5])
+        if form == "int":
+            x = 2 ** k + int(off)
+            lo_t, lo = str(x), x
+        else:
+            x = float(2 ** k) + off
+            lo_t = "%.1f" % x
+            assert float(lo_t) == x
+            lo = py_simplify(x)
+    if rng.random() < 0.5:
+        hi_t = "%s+%d" % (lo_t, w)                 # evaluated by Ka: `+` on the kinds at hand, then simplify_number
+        hi = py_simplify(lo + w)
+    else:
+        h = float(lo) + w
+        hi_t = "%.1f" % h
+        assert float(hi_t) == h
+        hi = py_simplify(h)
+    kind, st_t = rng.choice([("float", "0.7"), ("float", "0.5"), ("float", "0.3"), ("float", "0.26"), ("float", "0.75"),
+                             ("float", "1.5"), ("float", "0.1"), ("frac", "1/3"), ("int", "1"), ("float", "0.5000001"),
+                             ("float", "0.25"), ("float", "1.0e-3"), ("frac", "3/4"), ("float", "2.5"), ("int", "3"),
+                             ("float", "0.125"), ("frac", "5/2"), ("frac", "1e-1")])
+    st = ka_literal(st_t)
+    return lo_t, hi_t, st_t, lo, hi, st
+
+
+def reference_range(lo, hi, st, limit=100000):
+    """`ka_range` after efcc27a on Python numbers, written down independently: returns the list (elements as Ka delivers
+    them), or "funarg" (non-positive step, lo > hi, or a round that makes no progress), or None beyond `limit` rounds"""
+    from fractions import Fraction
+    if not Fraction(0) < Fraction(st) or not Fraction(lo) <= Fraction(hi):
+        return "funarg"
+    out, c = [], lo
+    while Fraction(c) <= Fraction(hi):
+        if len(out) > limit:
+            return None
+        out.append(c)
+        n = py_simplify(c + st)
+        if not Fraction(c) < Fraction(n):
+            return "funarg"
+        c = n
+    return out
 
 
 class Gen:
@@ -699,6 +787,17 @@ class Gen:
             lo = rng.choice(["0", "1", "0.5", "1/2", "2"])
             hi = rng.choice(["3", "4", "5", "2.5", "7/2"])
             st = rng.choice(["1", "0.5", "1/2", "2", "0.25", "1/3", "0", "-1", "0.1"])
+            if rng.random() < 0.3:
+                # float steps next to 2^51 … 2^54: rounded, or absorbed (FunctionArgError since fix efcc27a)
+                lo, hi, st = float_range_case(rng)[:3]
+                self.tags.add("range-float-edge")
+                if rng.random() < 0.5:
+                    # the distances from the first element: small numbers, printed exactly (the elements themselves
+                    # all print as 4.5036e+15)
+                    x = rng.choice(["i", "j", "k", "n"])
+                    self.compr_vars.append(x)
+                    self.tags.add("comprehension")
+                    return (self.join(["{", x, "-", "(", lo, ")", ":", x, "in", "range", "(", lo, ",", hi, ",", st, ")", "}"]), L_BRACK)
             return (self.join(["range", "(", lo, ",", hi, ",", st, ")"]), L_ATOM)
         # comprehension
         self.tags.add("comprehension")
